@@ -199,9 +199,9 @@ class Gen:
                               'settings: *bsae\n', 'a: &x 1\nb: *y\n', '- *second\n', 'ok: 1\n---\nlater: *nowhere\n', 'enabled: !!bool maybe\n'])
 
 
-def cfg_line(n, dir_rel='snaps', filename=None, ext=None, update='none', jsonopt=None):
-    return 'cfg %d %s %s %s %s %s' % (n, hx(dir_rel), hx(filename) if filename else '-', hx(ext) if ext else '-', update,
-                                      jsonopt or 'none')
+def cfg_line(n, dir_rel='snaps', filename=None, ext=None, update='none', jsonopt=None, apply=False):
+    return 'cfg %d %s %s %s %s %s%s' % (n, hx(dir_rel), hx(filename) if filename else '-', hx(ext) if ext else '-', update,
+                                        jsonopt or 'none', ' apply' if apply else '')
 
 
 def mode_line(ci, upd):
